@@ -1,8 +1,8 @@
 (* C06 -- the limit deposit velocity is positive, converged and ignores its dummy argument.
    Statements only; proofs in Lemmas/LC06.v; model regenerated from DHLLDV_framework.LDV (four counted loops). *)
 From Coq Require Import Reals.
-From DHV Require Import NumOps RInst LC06.
-From DHV Require Framework.
+From DHV Require Import NumOps RInst LC06 LLdv.
+From DHV Require Framework FrameworkOk.
 Local Open Scope R_scope.
 
 (* the line-speed argument is documented as unused: the result does not depend on it, for any iteration budget *)
@@ -18,3 +18,13 @@ Theorem C06_positive : forall (v Dp d eps nu rhol rhos Cvs : R) (max_steps : nat
   0 < Framework.LDV RN v Dp d eps nu rhol rhos Cvs max_steps.
 Proof. exact LC06.positive. Qed.
 Print Assumptions C06_positive.
+
+(* ... and the bases ARE positive: on the envelope (and beyond: any grain, any concentration up to 0.58, any iteration
+   budget) LDV is defined -- every iterate of the four loops is a positive line speed at which the friction factor is
+   defined and positive (laminar or turbulent branch), every fractional power has a positive base, the discriminant of
+   the lower-limit quadratic is positive.  With C06_positive: finite and positive *)
+Theorem C06_defined : forall (vls Dp d eps nu rhol rhos Cvs : R) (max_steps : nat),
+  1 / 10 <= Dp <= 12 / 10 -> 0 <= eps <= 1 / 10000 -> 0 < nu -> 0 < d -> 0 < rhol < rhos -> 0 < Cvs <= 58 / 100 ->
+  FrameworkOk.LDV_ok vls Dp d eps nu rhol rhos Cvs max_steps.
+Proof. exact LLdv.LDV_ok. Qed.
+Print Assumptions C06_defined.
